@@ -180,6 +180,10 @@ func (s *SearchParams) QueryEscape(st string, output *strings.Builder) {
 	for _, b := range st {
 		if b == 0x0020 {
 			output.WriteRune(0x002B)
+		} else if b == '&' || b == '=' || b == '+' {
+			// The delimiters of the urlencoded format itself must always be escaped, otherwise
+			// the serialized list parses back as a different list.
+			output.WriteString(s.url.parser.percentEncodeRune(b, nil))
 		} else {
 			output.WriteString(s.url.parser.percentEncodeRune(b, s.url.parser.opts.queryPercentEncodeSet))
 		}
